@@ -21,3 +21,13 @@ open RdfModel
 #print axioms RdfModel.C11.microdata_roundtrip_validated
 #print axioms RdfModel.C11.microdata_roundtrip_partial
 #print axioms RdfModel.C11.jsonld_script_extracted
+#print axioms RdfModel.C11.rdfa_prefix_out_of_scope_is_iri
+#print axioms RdfModel.C11.rdfa_prefix_in_scope_is_curie
+#print axioms RdfModel.C11.rdfa_prefix_scope
+#print axioms RdfModel.C11.rdfa_prefix_scope_witness
+#print axioms RdfModel.C11.rdfa_term_under_any_vocab
+#print axioms RdfModel.C11.rdfa_vocab_declared
+#print axioms RdfModel.C11.microdata_itemref_ignores_other_ids
+#print axioms RdfModel.C11.microdata_nested_target_witness
+#print axioms RdfModel.C11.microdata_denote_ignores_unreferenced_ids
+#print axioms RdfModel.C11.rdfa_denote_ignores_ids
